@@ -504,7 +504,9 @@ class World:
         self.failures: List[Tuple[str, str, str]] = []   # (oracle, signature, message)
         self.selectors: List[Any] = []
         self.rr = 0
+        self.change_seq = 0
         self.long_tasks: List[Tuple[str, Any]] = []
+        self.fault_hosts: set = set()
         self.shuffle_ready = False
         self.task_seq = 0
         self.pipe_seq = 0
@@ -539,6 +541,7 @@ class World:
 
     def touch(self) -> None:
         self.last_progress = self.now
+        self.change_seq += 1
 
     def fail(self, oracle: str, signature: str, message: str) -> None:
         """Record an oracle failure (first one wins for reporting)."""
@@ -796,11 +799,26 @@ class World:
         `quiet` virtual seconds, at most max_wait.  True if it got quiet."""
         end = self.now + max_wait
         while self.now < end and not self.hung and not self.deadlock:
+            if self._busy():
+                # pending work that does not show as data movement counts as progress
+                self.last_progress = self.now
             target = self.last_progress + quiet
-            if self.now >= target and not any(a.enabled() for a in self.actors):
+            if self.now >= target:
                 return True
             self.block(None, max(min(target, end) - self.now, 0.001), 'settle')
-        return self.now >= self.last_progress + quiet
+        return self.now >= self.last_progress + quiet and not self._busy()
+
+    def _busy(self) -> bool:
+        """Something is still pending that does not show as data movement: an
+        actor that can act or sleeps towards a deadline, or a sim thread parked
+        inside a blocking connect/send/recv (e.g. a 10 s connect timeout)."""
+        for a in self.actors:
+            if a.enabled() or a.next_deadline() is not None:
+                return True
+        for t in self.threads:
+            if not t.finished and t.waiting_on in ('connect', 'send', 'recv', 'lock'):
+                return True
+        return False
 
     def abort_threads(self) -> None:
         """Unwind every sim thread that is still alive."""
@@ -880,7 +898,7 @@ def _ephemeral_port(self: World, host: str) -> int:
 def _resolve(self: World, host: Any, port: Any, family: int = 0, type: int = 0) -> List[Any]:
     if isinstance(host, bytes):
         host = host.decode('idna')
-    f = self.fault('getaddrinfo', None)
+    f = self.fault('getaddrinfo', None) if host in self.fault_hosts else None
     if f is not None:
         code = getattr(_socket, f)
         self.resolve_log.append((host, port, f))
@@ -945,7 +963,8 @@ def _net_connect(self: World, family: int, host: Any, port: int, timeout: Option
         self.connect_log.append((host, port, outcome))
         self.ev(who, 'connect', '%s:%s %s' % (host, port, outcome))
 
-    f = self.fault('connect', None)
+    r0: Optional[Remote] = self.remote.get((host, port))
+    f = self.fault('connect', None) if (r0 is not None and r0.faultable) else None
     if f is not None:
         done(f + '(f)')
         e = getattr(errno, f)
